@@ -51,6 +51,7 @@ type Solver struct {
 	Retries      int
 	TimeNs       int64
 	popPending   bool
+	oneShotOnly  bool
 	killed       int32
 	resetPending bool
 	LogFile      *os.File
@@ -149,8 +150,8 @@ func (s *Solver) Check(body string, vars []*Term) (SatResult, Model, string) {
 	t0 := time.Now()
 	defer func() { s.TimeNs += time.Since(t0).Nanoseconds(); s.Queries++ }()
 	atomic.StoreInt32(&s.killed, 0)
-	res, m, note := s.check1(body, vars, false)
-	if res == Unknown && !s.isCVC5() && atomic.LoadInt32(&s.killed) == 0 {
+	res, m, note := s.check1(body, vars, s.oneShotOnly)
+	if res == Unknown && !s.isCVC5() && !s.oneShotOnly && atomic.LoadInt32(&s.killed) == 0 {
 		// z3's incremental core gave up: retry once as a fresh one-shot problem (tactic pipeline)
 		s.Retries++
 		res, m, note = s.check1(body, vars, true)
